@@ -10,7 +10,8 @@ COQ_PROPS = ['Props/C11.v']
 COQ_IMPORTS = ['Prims', 'CaseLib', 'MiniFloat']
 RULE = ('every code of every format (<= 256 each; bfloat sampled + all exponent/mantissa boundaries) is decoded and compared with an exact-rational definition of the format; every one of the 65536 '
         'half-precision inputs (thorough; a stratified 6000 + all rounding boundaries in quick) x every format x mxfp_overflow in {saturate, overflow} is encoded and compared with round-to-nearest-even '
-        'computed on fractions; float64 inputs not representable in half precision (midpoints +-1 ulp, > 65504, subnormal, +-inf, NaN, -0.0); decode-re-encode of every non-NaN code; scaled dtypes. '
+        'computed on fractions; values of every Python type (float, int, bool, numeric str; every zero) through every route that takes a value (keywords of pack included), pack() with '
+        'literal / positional / keyword values mixed, Arrays with scaled dtypes (creation, insertion, astype between scales and formats, dtype re-assignment, operators), scaled Dtypes through every reading route; float64 inputs not representable in half precision (midpoints +-1 ulp, > 65504, subnormal, +-inf, NaN, -0.0); decode-re-encode of every non-NaN code; scaled dtypes. '
         'non-trivial = an input that is not exactly representable in the target format; distinct by (format, input, mode)')
 ASSUMPTIONS = ['struct.pack(">e") is IEEE round-to-nearest-even to binary16 (CPython)', 'values are compared as exact fractions / bit patterns, never as floats']
 
@@ -65,9 +66,12 @@ def decode_ref(name, c):
     v = Fraction(m, 1 << mb) * Fraction(2) ** (1 - bias) if e == 0 else (1 + Fraction(m, 1 << mb)) * Fraction(2) ** (e - bias)
     return -v if sign else v
 
+_FINITE = {}
 def finite_codes(name):
-    bits = FMT[name][0]
-    return [(decode_ref(name, c), c) for c in range(1 << bits) if isinstance(decode_ref(name, c), Fraction)]
+    if name not in _FINITE:
+        bits = FMT[name][0]
+        _FINITE[name] = [(decode_ref(name, c), c) for c in range(1 << bits) if isinstance(decode_ref(name, c), Fraction)]
+    return _FINITE[name]
 
 def rne(q: Fraction) -> int:
     f = math.floor(q)
@@ -127,6 +131,13 @@ def float_to_half_x(f):
     return half_to_x(int.from_bytes(b, 'big'))
 
 def gen_cases(rng, tier):
+    yield from _gen_base(rng, tier)
+    yield from gen_values(rng, tier)
+    yield from gen_packmix(rng, tier)
+    yield from gen_arrays(rng, tier)
+    yield from gen_scaled_read(rng, tier)
+
+def _gen_base(rng, tier):
     for name in FMT:
         bits = FMT[name][0]
         for c in range(1 << bits):
@@ -202,7 +213,226 @@ def gen_cases(rng, tier):
     for _ in range(300 if tier == 'quick' else 5000):
         yield {'op': 'decode_other', 'fmt': rng.choice(['bfloat', 'bfloatle']), 'code': rng.choice([rng.randrange(65536), 0x7f80, 0xff80, 0x7fc0, 0x0001, 0x8000, 0x7f7f])}
 
-def kind(c): return c['op'] + ':' + c['fmt']
+
+# ---------------------------------------------------------------------------------------------------------------------------------
+# One reference for all ten formats (plain Python floats, fractions, struct): enc_any / dec_any.  Used by the value-type / keyword
+# routes (encode_val, packmix), the scaled reading routes (scaled_read) and the Array programs with scaled dtypes (array).
+# ---------------------------------------------------------------------------------------------------------------------------------
+OTHERF = {'mxint': 8, 'e8m0mxfp': 8, 'bfloat': 16, 'bfloatbe': 16, 'bfloatle': 16}
+ALLF = list(FMT) + list(OTHERF)
+ALIAS = {'bfloatbe': 'bfloat'}
+def nbits(name): return FMT[name][0] if name in FMT else OTHERF[name]
+SAME_WIDTH = {}
+for _n in ALLF: SAME_WIDTH.setdefault(nbits(_n), []).append(_n)
+
+def enc_any(name, f, mode):
+    """code (int) of the Python number f in format `name` under mxfp_overflow `mode`, or 'ValueError'"""
+    f = float(f)
+    if name in FMT:
+        x = float_to_half_x(f)
+        if x in ('big', '-big'): x = 'inf' if x == 'big' else '-inf'
+        return encode_ref(name, x, mode)
+    if name == 'mxint':
+        if f != f: return 'ValueError'
+        if math.isinf(f): return 127 if f > 0 else 128
+        q = Fraction(f) * 64
+        return (127 if q > 127 else (-128 if q <= -128 else rne(q))) & 0xff
+    if name == 'e8m0mxfp':
+        if f != f: return 255
+        ok = f > 0 and not math.isinf(f) and math.frexp(f)[0] == 0.5 and -127 <= math.frexp(f)[1] - 1 <= 127
+        return math.frexp(f)[1] - 1 + 127 if ok else 'ValueError'
+    try: b = struct.pack('>f', f)                  # bfloat: float32 (nearest even, overflow to infinity), the two most significant bytes
+    except OverflowError: b = struct.pack('>f', math.copysign(float('inf'), f))
+    return int.from_bytes(b[:2] if name != 'bfloatle' else b[:2][::-1], 'big')
+
+def dec_any(name, code):
+    """the Python float a code stands for"""
+    if name in FMT:
+        d = decode_ref(name, code)
+        if d == 'nan': return float('nan')
+        if d in ('inf', '-inf'): return float(d)
+        if d == 0 and code == 1 << (FMT[name][0] - 1) and FMT[name][4] != 'p3109': return -0.0
+        return float(d)
+    if name == 'mxint': return (code - 256 if code >= 128 else code) / 64
+    if name == 'e8m0mxfp': return float('nan') if code == 255 else 2.0 ** (code - 127)
+    by = code.to_bytes(2, 'big')
+    return struct.unpack('>f', (by if name != 'bfloatle' else by[::-1]) + b'\x00\x00')[0]
+
+class RefErr(Exception): pass
+
+def ref_bits(name, sc, v, mode):
+    """bits of the value v (float, int, bool or numeric str) stored through a dtype `name` with scale sc: the value is divided by the scale, then encoded"""
+    f = v if sc is None else v / sc
+    code = enc_any(name, f, mode)
+    if code == 'ValueError': raise RefErr()
+    return format(code, f'0{nbits(name)}b')
+
+def ref_values(name, sc, data):
+    """decoded items of the bit string data: whole items only, each multiplied by the scale"""
+    n = nbits(name)
+    out = []
+    for i in range(0, len(data) - n + 1, n):
+        v = dec_any(name, int(data[i:i + n], 2))
+        out.append(v if sc is None else v * sc)
+    return out
+
+# values as JSON: ['f', hex | 'nan'] float, ['i', n] int, ['b', flag] bool, ['s', text] numeric string
+def fspec(f): return ['f', 'nan' if f != f else float(f).hex()]
+def val_of(spec):
+    k, v = spec
+    if k == 'f': return float('nan') if v == 'nan' else float.fromhex(v)
+    return v
+ZEROS = [fspec(0.0), fspec(-0.0), ['i', 0], ['b', False]]
+ODDV = [['b', True], ['i', 1], ['i', -1], ['i', 2], ['i', -2], ['i', 4], ['i', 10 ** 6], ['i', -10 ** 30], fspec(0.5), fspec(1.0), fspec(-1.5), fspec(float('nan')), fspec(math.inf), fspec(-math.inf),
+        fspec(1e-30), fspec(-1e-30), fspec(5e-324), fspec(-5e-324), fspec(1e300), fspec(2.0 ** -127), fspec(2.0 ** 127),
+        ['s', '0'], ['s', '-0.0'], ['s', '0.0'], ['s', '-0'], ['s', '1'], ['s', '0.5'], ['s', '2'], ['s', 'nan'], ['s', '-inf'], ['s', '0e0'], ['s', '1e-400']]
+# keyword names: ordinary ones, and names that read as a float themselves (the keyword's value takes precedence over the text)
+KW_NAMES = ['v', 'x', 'lo', 'z', 'nan', 'inf', 'infinity', 'NaN', 'Inf', 'Infinity', 'value', 'n0', '_', 'e', 'zero', 'a', 'b2', 'k', 'true', 'false', 'none', 'e5', 'x0']
+KW_ROUTES = ['pack_kw', 'pack_kw_len', 'pack_list_kw', 'pack_kw_twice', 'pack_kw_after_pos', 'pack_kw_unused']
+VAL_ROUTES = ['kw', 'kw_len', 'build', 'token', 'pack_pos', 'setattr', 'stream_add', 'append_token', 'array_init', 'array_append', 'array_setitem', 'array_insert', 'array_extend', 'array_setslice'] + KW_ROUTES
+SCALABLE = ['build', 'array_init', 'array_append', 'array_setitem', 'array_insert', 'array_extend', 'array_setslice']
+SCALES = [2, 2.0, 0.5, 4, 0.25, 8, 2 ** -3, 2 ** 6, 2 ** 10, 2.0 ** -10, 1, 1.0, 3, 0.1, 49, 7.5, 10, 0.001, -2, -0.5, 2 ** 40, 2.0 ** -40, -1]
+POW2_SCALES = [2, 2.0, 0.5, 4, 0.25, 8, 2 ** -3, 2 ** 6, 2 ** 10, 2.0 ** -10, 1, 1.0, 2 ** 40, 2.0 ** -40]
+
+def rand_code(rng, name):
+    n = nbits(name)
+    if n == 16: return rng.choice([rng.randrange(65536), rng.randrange(0x3000, 0x5000), 0x3f80, 0xbf80, 0x0000, 0x8000, 0x7f7f, 0x0001])
+    return rng.randrange(1 << n)
+
+def rand_val(rng, name, sc=None, strings=True):
+    """a value spec to be encoded in format `name` through a dtype of scale sc: zeros of every type, odd values, values that are representable after the division"""
+    r = rng.random()
+    if r < 0.3: return rng.choice(ZEROS)
+    if r < 0.5:
+        v = rng.choice(ODDV)
+        while v[0] == 's' and not strings: v = rng.choice(ODDV)
+        return v
+    if r < 0.6: return fspec(rng.choice([rng.uniform(-3, 3), rng.uniform(-500, 500), rng.uniform(-1e-3, 1e-3), rng.uniform(-1e5, 1e5)]))
+    x = dec_any(name, rand_code(rng, name))
+    if name == 'bfloatle': x = dec_any('bfloat', rand_code(rng, 'bfloat'))
+    if sc is not None and x == x: x = x * sc
+    if x == int(x) if x == x and not math.isinf(x) else False:
+        if abs(x) < 2 ** 60 and rng.random() < 0.3: return ['i', int(x)]
+    return fspec(x)
+
+def gen_values(rng, tier):
+    """one value of any type (float, int, bool, numeric str; every zero) through every route that takes a value, for every format: the code is that of float(value)"""
+    def case(name, val, route):
+        c = {'op': 'encode_val', 'fmt': name, 'val': val, 'route': route, 'mode': rng.choice(['saturate', 'overflow']), 'key': rng.choice(KW_NAMES),
+             'cls': rng.choice(['Bits', 'BitArray', 'ConstBitStream', 'BitStream']), 'scale': None, 'lsb0': rng.random() < 0.1}
+        if route in ('setattr', 'append_token'): c['cls'] = rng.choice(['BitArray', 'BitStream'])
+        if route in SCALABLE and val[0] != 's' and rng.random() < 0.4: c['scale'] = rng.choice(SCALES)
+        if route in ('token', 'stream_add', 'append_token') and val[0] == 'b': c['val'] = ['i', int(val[1])]
+        return c
+    for name in ALLF:
+        for val in ZEROS + ODDV[:3] + [fspec(float('nan')), fspec(math.inf)]:
+            routes = VAL_ROUTES if tier == 'thorough' else KW_ROUTES[:4] + [rng.choice(KW_ROUTES[4:]), rng.choice(VAL_ROUTES[:6]), rng.choice(VAL_ROUTES[6:14])]
+            for route in routes: yield case(name, val, route)
+    for _ in range(300 if tier == 'quick' else 6000):
+        name = rng.choice(ALLF)
+        yield case(name, rand_val(rng, name), rng.choice(VAL_ROUTES))
+
+NEIGHBOURS = ['uint:8', 'bool', 'int:5']
+def gen_packmix(rng, tier):
+    """pack() with several tokens whose values come from the format text, from positional arguments and from keywords (shared or not), keyword values falsy or not"""
+    for i in range(150 if tier == 'quick' else 3000):
+        ntok = rng.choice([1, 2, 2, 3, 3, 4, 6])
+        names = list(KW_NAMES); rng.shuffle(names)
+        keyvals, toks = {}, []
+        for _ in range(ntok):
+            name = rng.choice(ALLF) if rng.random() < 0.85 else rng.choice(NEIGHBOURS)
+            how = rng.choice(['kw', 'kw', 'kw', 'pos', 'lit'])
+            if name in ALLF: val = rand_val(rng, name)
+            elif name == 'uint:8': val = ['i', rng.choice([0, 0, 1, 255, 7])]
+            elif name == 'int:5': val = ['i', rng.choice([0, 0, -1, 15, -16])]
+            else: val = rng.choice([['b', False], ['b', True], ['i', 0], ['i', 1]])
+            key = None
+            if how == 'lit':
+                v = val_of(val)
+                if isinstance(v, bool) or (isinstance(v, float) and (v != v or math.isinf(v))) or (isinstance(v, str) and v.strip().lstrip('-') in ('nan', 'inf')) or name == 'bool': how = 'kw'
+            if how == 'kw':
+                shared = [k for k, (n0, v0) in keyvals.items() if (n0 in ALLF) == (name in ALLF) and (name in ALLF or n0 == name)]
+                if shared and rng.random() < 0.3:
+                    key = rng.choice(sorted(shared)); val = keyvals[key][1]
+                else:
+                    key = names.pop(); keyvals[key] = (name, val)
+            toks.append({'fmt': name, 'how': how, 'key': key, 'val': val})
+        extra = {}
+        if rng.random() < 0.3: extra[names.pop()] = rng.choice(ZEROS + [['i', 7], ['s', '0b1']])        # a keyword no token refers to
+        yield {'op': 'packmix', 'toks': toks, 'aslist': rng.choice([None, None, 'each', 'split']), 'mode': rng.choice(['saturate', 'overflow']), 'extra': extra}
+
+def rand_scale(rng, name, not_this='-'):
+    """a scale (None = unscaled) for format `name`; with not_this given, one of another value"""
+    pool = [None, None] + (POW2_SCALES if name == 'e8m0mxfp' and rng.random() < 0.9 else SCALES)
+    for _ in range(20):
+        s = rng.choice(pool)
+        if not_this == '-': return s
+        same = (s is None and not_this is None) or (s is not None and not_this is not None and float(s) == float(not_this))
+        if not same: return s
+    return None if not_this is not None else 2
+
+def gen_arrays(rng, tier):
+    """Arrays whose dtype carries a scale: creation, item access, insertion, astype (same format with another scale, scaled <-> unscaled, other formats), dtype re-assignment,
+    element-wise operators.  Stored items are codes of value / scale; items read back are decoded value * scale."""
+    N = 160 if tier == 'quick' else 3500
+    for i in range(N):
+        name = ALLF[i % len(ALLF)] if i < 3 * len(ALLF) else rng.choice(ALLF)
+        sc = rand_scale(rng, name)
+        ln = rng.choice([0, 1, 2, 3, 4, 5, 8])
+        init = [rand_val(rng, name, sc, strings=sc is None) for _ in range(ln)]
+        steps = []
+        cur, cursc = name, sc
+        for si in range(rng.choice([1, 2, 3, 4, 6])):
+            r = rng.random()
+            if r < (0.7 if si == 0 else 0.35):
+                q = rng.random()
+                if q < 0.5: n2, s2 = cur, rand_scale(rng, cur, not_this=cursc)
+                elif q < 0.6: n2, s2 = cur, cursc
+                elif q < 0.7: n2, s2 = cur, None
+                else: n2 = rng.choice(ALLF); s2 = rand_scale(rng, n2)
+                how = rng.choice(['dtype', 'dtype', 'dtype_len', 'str' if s2 is None else 'dtype', 'dtype_of_dtype'])
+                keep = rng.random() < 0.75
+                steps.append(['astype', n2, s2, how, keep])
+                if keep: cur, cursc = n2, s2
+            elif r < 0.45:
+                n2 = rng.choice(SAME_WIDTH[nbits(cur)]); s2 = rand_scale(rng, n2, not_this=cursc if n2 == cur else '-')
+                steps.append(['setdtype', n2, s2, rng.choice(['dtype', 'str' if s2 is None else 'dtype'])]); cur, cursc = n2, s2
+            elif r < 0.52: steps.append(['append', rand_val(rng, cur, cursc, strings=cursc is None)]); ln += 1
+            elif r < 0.57: steps.append(['insert', rng.randrange(-ln - 1, ln + 2), rand_val(rng, cur, cursc, strings=False)]); ln += 1
+            elif r < 0.64 and ln: steps.append(['setitem', rng.randrange(-ln, ln), rand_val(rng, cur, cursc, strings=False)])
+            elif r < 0.69:
+                k = rng.randrange(0, 4); steps.append(['extend', [rand_val(rng, cur, cursc, strings=False) for _ in range(k)]]); ln += k
+            elif r < 0.73:
+                a = rng.randrange(0, ln + 1); b = rng.randrange(a, ln + 1); k = rng.randrange(0, 3)
+                steps.append(['setslice', a, b, [rand_val(rng, cur, cursc, strings=False) for _ in range(k)]]); ln += k - (b - a)
+            elif r < 0.85:
+                opn = rng.choice(['mul', 'add', 'sub', 'truediv', 'neg', 'abs', 'imul', 'iadd', 'isub', 'itruediv'])
+                k = rng.choice([2, 0.5, -1, 3, 1, 0.25, 4, 1.5, -2.0, 64, 2 ** -7, 0.0, -0.0, 0, 7]) if opn not in ('truediv', 'itruediv') else rng.choice([2, 0.5, -1, 3, 1, 4, 0.1, -8])
+                steps.append(['op', opn, k])
+            elif r < 0.9 and ln:
+                s2 = rand_scale(rng, cur, not_this=cursc)
+                steps.append(['opa', rng.choice(['mul', 'add', 'sub']), cur, s2, [rand_val(rng, cur, s2, strings=False) for _ in range(ln)]])
+            elif r < 0.95:
+                a = rng.choice([None, 0, 1, -1]); b = rng.choice([None, ln, -1, 2]); st = rng.choice([None, 1, 2, -1])
+                steps.append(['slice', a, b, st]); ln = len(range(*slice(a, b, st).indices(ln)))
+            elif r < 0.97: steps.append(['copy'])
+            elif ln: steps.append(['pop', rng.randrange(-ln, ln)]); ln -= 1
+        yield {'op': 'array', 'fmt': name, 'scale': sc, 'init': init, 'steps': steps, 'mode': rng.choice(['saturate', 'overflow']), 'how': rng.choice(['dtype', 'dtype_len', 'str' if sc is None else 'dtype'])}
+
+def gen_scaled_read(rng, tier):
+    """codes read back through Dtypes with a scale by every reading route: each value is the decoded value times the scale of ITS dtype"""
+    for i in range(120 if tier == 'quick' else 2500):
+        k = rng.choice([1, 1, 2, 3, 5])
+        same = rng.random() < 0.4
+        n0 = rng.choice(ALLF)
+        items = []
+        for _ in range(k):
+            name = n0 if same else rng.choice(ALLF)
+            items.append([name, rand_scale(rng, name), rand_code(rng, name)])
+        yield {'op': 'scaled_read', 'items': items, 'route': rng.choice(['parse', 'read', 'readlist', 'unpack', 'peeklist', 'peek', 'get_fn', 'array', 'parse_auto', 'read_fn']), 'mode': rng.choice(['saturate', 'overflow']),
+               'cls': rng.choice(['Bits', 'BitArray', 'ConstBitStream', 'BitStream']), 'lead': rng.choice([0, 0, 1, 3, 8])}
+
+def kind(c): return c['op'] + ':' + c.get('fmt', '*')
 
 def xcanon(v):
     """a Python float as exact value"""
@@ -211,11 +441,151 @@ def xcanon(v):
     if v == 0 and math.copysign(1, v) < 0: return '-0'
     return str(Fraction(v))
 
+LSB0_OK = ['kw', 'kw_len', 'build', 'token', 'pack_pos', 'setattr', 'pack_kw', 'pack_kw_len', 'pack_list_kw', 'pack_kw_unused']
+
+def mk_dtype(name, sc, how='dtype'):
+    from bitstring import Dtype
+    if how == 'str' and sc is None: return name
+    if how == 'dtype_len': return Dtype(name, nbits(name), scale=sc)
+    if how == 'dtype_of_dtype': return Dtype(Dtype(name, scale=sc))
+    return Dtype(name, scale=sc)
+
+def run_encode_val(c):
+    import bitstring
+    from bitstring import pack, Array
+    name, v, r, key, sc = c['fmt'], val_of(c['val']), c['route'], c['key'], c['scale']
+    C = getattr(bitstring, c['cls'])
+    n = nbits(name)
+    lit = v if isinstance(v, str) else repr(v)
+    dt = lambda: mk_dtype(name, sc)
+    def f():
+        if r == 'kw': return C(**{name: v}).bin
+        if r == 'kw_len': return C(**{name: v, 'length': n}).bin
+        if r == 'build': return dt().build(v).bin
+        if r == 'token': return C(f'{name}={lit}').bin
+        if r == 'pack_pos': return pack(name, v).bin
+        if r == 'pack_kw': return pack(f'{name}={key}', **{key: v}).bin
+        if r == 'pack_kw_len': return pack(f'{name}:n9={key}', **{key: v, 'n9': n}).bin
+        if r == 'pack_list_kw': return pack([f'{name}={key}'], **{key: v}).bin
+        if r == 'pack_kw_twice': return pack(f'{name}={key}, {name}={key}', **{key: v}).bin
+        if r == 'pack_kw_after_pos': return pack(f'{name}, {name}={key}', 1.0, **{key: v}).bin
+        if r == 'pack_kw_unused': return pack(f'{name}={key}', **{key: v, 'zz9': 0.0, 'yy9': False}).bin
+        if r == 'setattr':
+            a = C(); setattr(a, name, v); return a.bin
+        if r == 'stream_add': return (C('0b1') + f'{name}={lit}').bin
+        if r == 'append_token':
+            a = C('0b1'); a.append(f'{name}={lit}'); return a.bin
+        if r == 'array_init': return Array(dt(), [v]).data.bin
+        if r == 'array_append':
+            a = Array(dt()); a.append(v); return a.data.bin
+        if r == 'array_setitem':
+            a = Array(dt(), 1); a[0] = v; return a.data.bin
+        if r == 'array_insert':
+            a = Array(dt()); a.insert(0, v); return a.data.bin
+        if r == 'array_extend':
+            a = Array(dt()); a.extend((v,)); return a.data.bin
+        if r == 'array_setslice':
+            a = Array(dt(), 2); a[0:1] = [v]; return a.data.bin
+        raise AssertionError(r)
+    if c.get('lsb0') and r in LSB0_OK: bitstring.options.lsb0 = True      # the code of a value does not depend on the bit numbering
+    try: return attempt(f)
+    finally: bitstring.options.lsb0 = False
+
+def packmix_call(c):
+    parts, pos, kw = [], [], {}
+    for t in c['toks']:
+        v = val_of(t['val'])
+        if t['how'] == 'pos': parts.append(t['fmt']); pos.append(v)
+        elif t['how'] == 'lit': parts.append(f"{t['fmt']}={v if isinstance(v, str) else repr(v)}")
+        else: parts.append(f"{t['fmt']}={t['key']}"); kw[t['key']] = v
+    for k, spec in c['extra'].items(): kw[k] = val_of(spec)
+    h = len(parts) // 2
+    if c['aslist'] == 'each': fmt = parts
+    elif c['aslist'] == 'split' and h: fmt = [', '.join(parts[:h]), ', '.join(parts[h:])]
+    else: fmt = ', '.join(parts)
+    return fmt, pos, kw
+
+def snap(a):
+    sc = a.dtype.scale
+    return {'data': a.data.bin, 'name': a.dtype.name, 'scale': None if sc is None else float(sc).hex(), 'list': [xcanon(v) for v in a.tolist()],
+            'items': [xcanon(a[i]) for i in range(len(a))], 'iter': [xcanon(v) for v in a], 'count0': a.count(a[0]) if len(a) else 0}
+
+def run_array(c):
+    import operator, copy
+    from bitstring import Array
+    out = []
+    def f():
+        a = Array(mk_dtype(c['fmt'], c['scale'], c['how']), [val_of(x) for x in c['init']])
+        out.append(snap(a))
+        for st in c['steps']:
+            k = st[0]
+            extra = {}
+            if k == 'astype':
+                b = a.astype(mk_dtype(st[1], st[2], st[3])); extra['src'] = a.data.bin
+                if st[4]: a = b
+                else:
+                    out.append(dict(snap(b), **extra)); continue
+            elif k == 'setdtype': a.dtype = mk_dtype(st[1], st[2], st[3])
+            elif k == 'append': a.append(val_of(st[1]))
+            elif k == 'insert': a.insert(st[1], val_of(st[2]))
+            elif k == 'setitem': a[st[1]] = val_of(st[2])
+            elif k == 'extend': a.extend([val_of(x) for x in st[1]])
+            elif k == 'setslice': a[st[1]:st[2]] = [val_of(x) for x in st[3]]
+            elif k == 'op':
+                src = a
+                a = getattr(operator, st[1])(a) if st[1] in ('neg', 'abs') else getattr(operator, st[1])(a, st[2])
+                if not st[1].startswith('i') : extra['src'] = src.data.bin
+            elif k == 'opa':
+                other = Array(mk_dtype(st[2], st[3]), [val_of(x) for x in st[4]])
+                b = getattr(operator, st[1])(a, other); extra['src'] = a.data.bin; a = b
+            elif k == 'slice': a = a[st[1]:st[2]:st[3]]
+            elif k == 'copy': a = copy.copy(a)
+            elif k == 'pop': extra['ret'] = xcanon(a.pop(st[1]))
+            out.append(dict(snap(a), **extra))
+    end = attempt(f, secs=10)
+    return ('ok', {'steps': out, 'end': list(end)})
+
+def run_scaled_read(c):
+    import bitstring
+    from bitstring import Array
+    items, r, lead = c['items'], c['route'], c['lead']
+    cls = c['cls']
+    if r in ('read', 'readlist', 'peeklist', 'peek') and cls in ('Bits', 'BitArray'): cls = {'Bits': 'ConstBitStream', 'BitArray': 'BitStream'}[cls]
+    C = getattr(bitstring, cls)
+    codes = [format(code, f'0{nbits(n)}b') for n, s, code in items]
+    dts = lambda: [mk_dtype(n, s) for n, s, code in items]
+    uniform = all(x[0] == items[0][0] and x[1] == items[0][1] for x in items)
+    def f():
+        if r == 'parse': return [xcanon(d.parse(C(bin=b))) for d, b in zip(dts(), codes)]
+        if r == 'parse_auto': return [xcanon(d.parse('0b' + b)) for d, b in zip(dts(), codes)]
+        if r == 'get_fn': return [xcanon(d.get_fn(C(bin=b))) for d, b in zip(dts(), codes)]
+        if r == 'array' and uniform: return [xcanon(v) for v in Array(dts()[0], C(bin=''.join(codes))).tolist()]
+        if r in ('unpack', 'array'): return [xcanon(v) for v in C(bin=''.join(codes)).unpack(dts())]
+        o = C(bin='1' * lead + ''.join(codes))
+        if r == 'read_fn':
+            out, p = [], lead
+            for d, b in zip(dts(), codes):
+                out.append(xcanon(d.read_fn(o, start=p))); p += len(b)
+            return out
+        o.pos = lead
+        if r == 'read': return [xcanon(o.read(d)) for d in dts()] + [o.pos]
+        if r == 'readlist': return [xcanon(v) for v in o.readlist(dts())] + [o.pos]
+        if r == 'peeklist': return [xcanon(v) for v in o.peeklist(dts())] + [o.pos]
+        if r == 'peek': return [xcanon(o.peek(dts()[0]))] + [o.pos]
+        raise AssertionError(r)
+    return attempt(f)
+
 def run_impl(c):
     import bitstring
     from bitstring import Bits, BitArray, Dtype, pack
-    op, name = c['op'], c['fmt']
+    op, name = c['op'], c.get('fmt')
     bitstring.options.mxfp_overflow = c.get('mode', 'saturate')
+    if op == 'encode_val': return run_encode_val(c)
+    if op == 'packmix':
+        fmt, pos, kw = packmix_call(c)
+        return attempt(lambda: pack(fmt, *pos, **kw).bin)
+    if op == 'array': return run_array(c)
+    if op == 'scaled_read': return run_scaled_read(c)
     if op == 'decode':
         bits = FMT[name][0]
         b = Bits(uint=c['code'], length=bits)
@@ -268,7 +638,141 @@ def scale_x(x, s, mul):
     v = Fraction(x) * Fraction(s) if mul else Fraction(x) / Fraction(s)
     return str(v)
 
+ERRS = (('err', 'ValueError'), ('err', 'BsError'))       # CreationError is both a bitstring.Error and a ValueError
+
+def expected_items(c):
+    """encode_val: the (value, ...) sequence the route stores, as bits"""
+    name, v, r, sc, mode = c['fmt'], val_of(c['val']), c['route'], c['scale'], c['mode']
+    n = nbits(name)
+    one = ref_bits(name, sc, v, mode)
+    if r == 'pack_kw_twice': return one + one
+    if r == 'pack_kw_after_pos': return ref_bits(name, None, 1.0, mode) + one
+    if r in ('stream_add', 'append_token'): return '1' + one
+    if r == 'array_setslice': return one + '0' * n
+    return one
+
+def canon_data(name, data):
+    """bfloat: which of the NaN patterns (sign, payload) is stored is not specified - every NaN item is written as N...N"""
+    if not isinstance(data, str) or not name.startswith('bfloat') or set(data) - {'0', '1'}: return data
+    out = ''
+    for i in range(0, len(data), 16):
+        it = data[i:i + 16]
+        out += 'N' * 16 if len(it) == 16 and dec_any(name, int(it, 2)) != dec_any(name, int(it, 2)) else it
+    return out
+
+import operator as _operator
+def array_reference(c):
+    """the expected snapshots of an Array program, up to and excluding the first step the reference refuses (returns snapshots, refused: bool)"""
+    mode = c['mode']
+    name, sc = c['fmt'], c['scale']
+    def snapshot(name, sc, items, **extra):
+        fv = ref_values(name, sc, ''.join(items))
+        vals = [xcanon(v) for v in fv]
+        extra['count0'] = 0 if not fv else (sum(1 for v in fv if v != v) if fv[0] != fv[0] else sum(1 for v in fv if v == fv[0]))      # count(first item): NaN counts the NaNs
+        return dict({'data': ''.join(items), 'name': ALIAS.get(name, name), 'scale': None if sc is None else float(sc).hex(), 'list': vals, 'items': vals, 'iter': vals}, **extra)
+    out = []
+    try:
+        items = [ref_bits(name, sc, val_of(x), mode) for x in c['init']]
+        out.append(snapshot(name, sc, items))
+        for st in c['steps']:
+            k = st[0]; extra = {}
+            if k == 'astype':
+                new = [ref_bits(st[1], st[2], v, mode) for v in ref_values(name, sc, ''.join(items))]       # the VALUES are kept (up to the rounding of the target), not the codes
+                extra['src'] = ''.join(items); extra['_srcname'] = name
+                if st[4]: name, sc, items = st[1], st[2], new
+                else:
+                    out.append(snapshot(st[1], st[2], new, **extra)); continue
+            elif k == 'setdtype':
+                # the CODES are kept, read through the new dtype.  (Which NaN pattern a bfloat item holds is not specified, so its re-interpretation is not either: judged up to here.)
+                if name.startswith('bfloat') and any(v != v for v in ref_values(name, None, ''.join(items))): return out, 'stop'
+                name, sc = st[1], st[2]
+            elif k == 'append': items.append(ref_bits(name, sc, val_of(st[1]), mode))
+            elif k == 'insert': items.insert(st[1], ref_bits(name, sc, val_of(st[2]), mode))
+            elif k == 'setitem': items[st[1]] = ref_bits(name, sc, val_of(st[2]), mode)
+            elif k == 'extend': items.extend([ref_bits(name, sc, val_of(x), mode) for x in st[1]])
+            elif k == 'setslice': items[st[1]:st[2]] = [ref_bits(name, sc, val_of(x), mode) for x in st[3]]
+            elif k == 'op':
+                fn = getattr(_operator, st[1][1:] if st[1].startswith('i') else st[1])
+                vals = ref_values(name, sc, ''.join(items))
+                if not st[1].startswith('i'): extra['src'] = ''.join(items); extra['_srcname'] = name
+                res, bad = [], False
+                for v in vals:
+                    try: res.append(ref_bits(name, sc, fn(v) if st[1] in ('neg', 'abs') else fn(v, st[2]), mode))
+                    except RefErr: bad = True
+                if bad: raise RefErr()
+                items = res
+            elif k == 'opa':
+                fn = getattr(_operator, st[1])
+                other = ref_values(st[2], st[3], ''.join(ref_bits(st[2], st[3], val_of(x), mode) for x in st[4]))
+                extra['src'] = ''.join(items); extra['_srcname'] = name
+                res, bad = [], False
+                for x, y in zip(ref_values(name, sc, ''.join(items)), other):
+                    try: res.append(ref_bits(name, sc, fn(x, y), mode))
+                    except RefErr: bad = True
+                if bad: raise RefErr()
+                items = res
+            elif k == 'slice': items = items[st[1]:st[2]:st[3]]
+            elif k == 'copy': items = list(items)
+            elif k == 'pop':
+                it = items.pop(st[1]); extra['ret'] = xcanon(ref_values(name, sc, it)[0])
+            out.append(snapshot(name, sc, items, **extra))
+    except RefErr:
+        return out, True
+    return out, False
+
+def oracle_new(c, obs):
+    op = c['op']
+    if op == 'encode_val':
+        what = f"{c['fmt']} of the {type(val_of(c['val'])).__name__} {val_of(c['val'])!r} via {c['route']} (key {c['key']!r}, scale {c['scale']}, {c['cls']}, {c['mode']}{', lsb0' if c.get('lsb0') and c['route'] in LSB0_OK else ''})"
+        try: exp = expected_items(c)
+        except RefErr: return None if tuple(obs) in ERRS else f"{what} must raise ValueError, got {obs}"
+        if obs[0] == 'ok' and c['route'] not in ('stream_add', 'append_token'): obs = ('ok', canon_data(c['fmt'], obs[1])); exp = canon_data(c['fmt'], exp)
+        return None if tuple(obs) == ('ok', exp) else f"{what} gave {obs}, the codes of the value(s) are {exp}"
+    if op == 'packmix':
+        fmt, pos, kw = packmix_call(c)
+        what = f"pack({fmt!r}, *{pos!r}, **{kw!r}) under {c['mode']}"
+        exp = ''
+        try:
+            for t in c['toks']:
+                v = val_of(t['val'])
+                if t['fmt'] in ALLF: exp += ref_bits(t['fmt'], None, v, c['mode'])
+                elif t['fmt'] == 'uint:8': exp += format(int(v), '08b')
+                elif t['fmt'] == 'int:5': exp += format(int(v) & 31, '05b')
+                else: exp += '1' if v else '0'
+        except RefErr: return None if tuple(obs) in ERRS else f"{what} must raise ValueError, got {obs}"
+        return None if tuple(obs) == ('ok', exp) else f"{what} gave {obs}, the codes of the values in token order are {exp}"
+    if op == 'array':
+        if obs[0] != 'ok': return f"Array program {c} : {obs}"
+        got, end = obs[1]['steps'], tuple(obs[1]['end'])
+        exp, refused = array_reference(c)
+        names = ['create'] + [str(st[:4] if st[0] in ('astype', 'setdtype') else st) for st in c['steps']]
+        head = f"Array({c['fmt']}, scale={c['scale']}, {[val_of(x) for x in c['init']]}) under {c['mode']}"
+        for i, (g, e) in enumerate(zip(got, exp)):
+            g = dict(g, data=canon_data(e['name'], g.get('data'))); e = dict(e, data=canon_data(e['name'], e['data']))
+            srcname = e.pop('_srcname', None)
+            if srcname: g['src'] = canon_data(srcname, g.get('src')); e['src'] = canon_data(srcname, e['src'])
+            if g != e:
+                diff = {k: (g.get(k), e.get(k)) for k in e if g.get(k) != e.get(k)}
+                return f"{head}, step {i} {names[i]}: (observed, expected from value / scale -> code -> value * scale) differ in {str(diff)[:700]}; whole program {names[1:]}"
+        if refused == 'stop': return None
+        if len(got) < len(exp): return f"{head}: step {len(got)} {names[len(got)]} of {names[1:]} stopped with {end}, expected {exp[len(got)]}"
+        if refused:
+            if len(got) > len(exp): return f"{head}: step {len(exp)} {names[len(exp)]} of {names[1:]} must raise ValueError (a value has no code in the format), but gave {got[len(exp)]}"
+            return None if end in ERRS else f"{head}: step {len(exp)} {names[len(exp)]} must raise ValueError, got {end}"
+        return None if end == ('ok', None) else f"{head}: after all steps: {end}"
+    if op == 'scaled_read':
+        exp = []
+        for n, sc, code in c['items']:
+            v = dec_any(n, code)
+            exp.append(xcanon(v if sc is None else v * sc))
+        total = sum(nbits(n) for n, _, _ in c['items'])
+        if c['route'] in ('read', 'readlist'): exp.append(c['lead'] + total)
+        if c['route'] == 'peeklist': exp.append(c['lead'])
+        if c['route'] == 'peek': exp = [exp[0], c['lead']]
+        return None if tuple(obs) == ('ok', exp) else f"codes {[(n, hex(code), 'scale', sc) for n, sc, code in c['items']]} read by {c['route']} ({c['cls']}, {c['lead']} bits before): {obs}, decoded value x scale gives {exp}"
+
 def oracle(c, obs):
+    if c['op'] in ('encode_val', 'packmix', 'array', 'scaled_read'): return oracle_new(c, obs)
     op, name = c['op'], c['fmt']
     if op == 'decode':
         d = decode_ref(name, c['code'])
@@ -338,7 +842,7 @@ def oracle(c, obs):
             exp = xcanon(v)
         return None if obs == ('ok', exp) else f"{name} code {code:#x} decodes to {obs}, expected {exp}"
 
-def nontrivial(c, obs): return c['op'] in ('encode_half', 'encode_float', 'other')
+def nontrivial(c, obs): return c['op'] in ('encode_half', 'encode_float', 'other', 'encode_val', 'packmix', 'array')
 def classify(c, obs): return None
 def cpyfloat(f):
     if f != f: return 'PyNaN'
@@ -349,7 +853,20 @@ def cpyfloat(f):
     return f"(PyFin {cbool(neg)} {m} {cz(-(e.bit_length() - 1))})"
 
 CT = {'p4binary': ('enc_p4', 'clamp_p4'), 'p3binary': ('enc_p3', 'clamp_p3'), 'e3m2mxfp': ('enc_e3m2', 'clamp_e3m2'), 'e2m3mxfp': ('enc_e2m3', 'clamp_e2m3'), 'e2m1mxfp': ('enc_e2m1', 'clamp_e2m1')}
+SINGLE_CODE_ROUTES = ['kw', 'kw_len', 'build', 'token', 'pack_pos', 'pack_kw', 'pack_kw_len', 'pack_list_kw', 'pack_kw_unused', 'setattr', 'array_init', 'array_append', 'array_setitem', 'array_insert', 'array_extend']
 def coq_check(c, obs):
+    if c['op'] in ('packmix', 'array', 'scaled_read'): return None          # the Python oracle decides (the model has no Array / pack of several tokens here)
+    if c['op'] == 'encode_val':
+        # one value of a table format, unscaled: the model's float_to_int on float(value) gives the observed code
+        if c['fmt'] not in FMT or c['scale'] is not None or obs[0] != 'ok' or c['route'] not in SINGLE_CODE_ROUTES or len(obs[1]) != nbits(c['fmt']) or set(obs[1]) - {'0', '1'}: return None
+        try: f = float(val_of(c['val']))
+        except Exception: return None
+        name = c['fmt']
+        if name in CT: t, cl = CT[name]
+        else:
+            suf = '_ovf' if c['mode'] == 'overflow' else '_sat'
+            t, cl = 'enc_' + name[:4] + suf, 'clamp_' + name[:4] + suf
+        return f"(float_to_int {t} {cl} {cpyfloat(f)} =? {int(obs[1], 2)})"
     if c['op'] == 'encode_float' and c['scale'] is None and obs[0] == 'ok':
         f = float.fromhex(c['f']) if c['f'] != 'nan' else float('nan')
         name = c['fmt']
